@@ -1,12 +1,12 @@
 #!/bin/bash
-# usage: mutant.sh <name> <patch-file|-R:commit> <prop> [tier]
+# usage: [MUTANT_BASE=<commit>] mutant.sh <name> <patch-file|-R:commit> <prop> [tier]   (MUTANT_BASE: the repository commit the change was written against, default HEAD)
 # Applies a change to a scratch worktree of /repo (never to /repo itself), runs one check against it and
 # prints whether the check reports a violation. Used for sensitivity testing only.
 set -u
 name=$1; patch=$2; prop=$3; tier=${4:-quick}
 wt=/tmp/mut-$name
 rm -rf "$wt"; git -C /repo worktree prune
-git -C /repo worktree add -q --detach "$wt" HEAD || exit 2
+git -C /repo worktree add -q --detach "$wt" "${MUTANT_BASE:-HEAD}" || exit 2
 if [[ "$patch" == -R:* ]]; then
   git -C "$wt" revert --no-commit "${patch#-R:}" >/dev/null 2>&1 || { echo "MUTANT $name: revert does not apply"; git -C /repo worktree remove --force "$wt"; exit 2; }
 else
